@@ -5,6 +5,7 @@
 //! trusted: R15 (deep slices): NetworkGraph::update_channel_internal, update_node_from_announcement_intern and remove_stale_channels_and_tracking_with_time work on IndexedMaps behind RwLocks with signature checks through secp256k1; the unit extracts, on every run and verbatim, (a) the body of the closure check_update_latest, (b) the body of the closure check_msg_sanity (its two calls of check_update_latest get the message as an explicit argument), (c) the chain-hash test and the MAX_VALUE_MSAT test at the top of update_channel_internal, (d) the timestamp test of the node announcement, (e) the per-channel body of the pruning loop (`scids_to_remove.insert(*scid)` becomes setting a flag); (f) pre_channel_announcement_validation_check with the map lookup replaced by its result as a parameter (R5); (g) verify_channel_announcement / verify_node_announcement whole, with the function-local macros expanded by rule (R8): `secp_verify_sig!(ctx, m, s, k, _)` -> `match ctx.verify_ecdsa(m, s, k) { Ok(_) => {}, Err(_) => return Err(..) }` and `get_pubkey_from_node_id!(n, _)` -> the external_body pubkey_from_node_id(n) with `?`-style early return, `hash_to_message!(message_sha256d_hash(..))` -> an uninterpreted hash of the contents; verify_ecdsa is external_body over the uninterpreted sig_valid; (h) the choice of the signing node of a channel_update (`.as_slice()` dropped, R5); (i) the replace-or-refuse test of add_channel_between_nodes; (j) the recently-removed test of update_channel_from_unsigned_announcement_intern (the two tracking maps are stubs with a ghost key set); map lookups, storing the new information, removing channels from the node table and the order-independence of the whole graph are dropped and not claimed
 //! trusted: env: ChannelInfo {one_to_two, two_to_one, capacity_sats, announcement_received_time}, ChannelUpdateInfo {last_update}, UnsignedChannelUpdate {chain_hash, timestamp, channel_flags, htlc_maximum_msat}, NodeAnnouncementInfo {last_update} are field skeletons; ChainHash is an opaque identity; LightningError loses its text and action (R8)
 //! trusted: R15 (deep slices, k): node_failed_permanent: the expression choosing the other end of each of the failed node's channels and the predicate of the `retain` on that neighbour's channel list, verbatim as functions (ChannelEnds is a two-field skeleton of ChannelInfo); removing the node, its channels and emptied neighbours from the maps and recording the removals are dropped and not claimed
+//! trusted: R15 (deep slices): remove_stale_channels_and_tracking_with_time: the two early returns with the cut-off expression, and the body of the closure should_keep_tracking (taken for the std configuration, R2), verbatim
 //! trusted: assume_specification for core::cmp::max / core::cmp::min (std definitions): present in every unit so that a change that introduces them is verified instead of being rejected by the tool
 //! trusted: failed_for_good: NetworkGraph::channel_failed_permanent_with_time is extracted whole; R5: `self.channels.write().unwrap()` / `self.nodes.write().unwrap()` / `self.removed_channels.lock().unwrap()` are the fields themselves (one caller, no other thread), remove_channel_in_nodes is a recorder of (scid, channel)
 //! trusted: unlink: R15 (deep slice of the function-local macro remove_from_node! in remove_channel_in_nodes_callback): the block run for a node found in the map, verbatim as a function of that node's entry; R6e: `V.retain(|c| scid != *c)` is the wrapper retain_other_channels with std's meaning (the elements other than scid, in order); the entry is a by-value skeleton, the caller's remove_node closure a recorder; the panic for an unknown node is outside
@@ -525,5 +526,35 @@ pub open spec fn without(s: Seq<u64>, scid: u64) -> Seq<u64> { s.filter(|c: u64|
 // std: Vec::retain keeps the elements for which the closure answers true, in order
 #[verifier::external_body] pub fn retain_other_channels(v: &mut Vec<u64>, scid: u64) ensures final(v)@ == without(old(v)@, scid) { unimplemented!() }
 }
+
+// ---- staleness pruning: the cut-off time, and how long removed entries are remembered ----
+//@const lightning/src/routing/gossip.rs REMOVED_ENTRIES_TRACKING_AGE_LIMIT_SECS
+//@extract lightning/src/routing/gossip.rs :: impl NetworkGraph :: fn remove_stale_channels_and_tracking_with_time
+//@slice R15
+    if $late:cond { return; } if $early:cond { return; } let min_time_unix: u32 = $cut:seq;
+//@with
+    fn cutoff_for_stale_updates(current_time_unix: u64) -> Option<u32> { if $late { return None; } if $early { return None; } let min_time_unix: u32 = $cut; Some(min_time_unix) }
+//@ret r
+//@ensures P C17 updates-older-than-the-staleness-limit-counted-back-from-now-are-stale-and-nothing-is-pruned-when-the-clock-is-out-of-the-range-timestamps-can-express
+    r == (if current_time_unix > u32::MAX as u64 || current_time_unix < STALE_CHANNEL_UPDATE_AGE_LIMIT_SECS { None::<u32> } else { Some((current_time_unix - STALE_CHANNEL_UPDATE_AGE_LIMIT_SECS) as u32) }),
+//@mutant cutoff_taken_from_the_tracking_window
+    (current_time_unix - STALE_CHANNEL_UPDATE_AGE_LIMIT_SECS) as u32
+//@with
+    (current_time_unix - REMOVED_ENTRIES_TRACKING_AGE_LIMIT_SECS) as u32
+//@end
+//@extract lightning/src/routing/gossip.rs :: impl NetworkGraph :: fn remove_stale_channels_and_tracking_with_time
+//@slice R15
+    let should_keep_tracking = |time: &mut Option<u64>| { $body:any };
+//@with
+    fn removed_entry_is_still_remembered(time: &mut Option<u64>, current_time_unix: u64) -> bool { $body }
+//@ret r
+//@ensures P C17 a-removed-channel-or-node-stays-refused-for-the-whole-tracking-window-after-its-removal-and-is-forgotten-afterwards
+    r == (*old(time) is Some && (if current_time_unix >= (*old(time))->Some_0 { current_time_unix - (*old(time))->Some_0 } else { 0 }) < REMOVED_ENTRIES_TRACKING_AGE_LIMIT_SECS),
+    *final(time) == *old(time),
+//@mutant removed_entries_forgotten_at_once
+    current_time_unix.saturating_sub(*time) < REMOVED_ENTRIES_TRACKING_AGE_LIMIT_SECS
+//@with
+    current_time_unix.saturating_sub(*time) > REMOVED_ENTRIES_TRACKING_AGE_LIMIT_SECS
+//@end
 }
 fn main() {}
